@@ -152,7 +152,7 @@ def families(tier):
     if not thorough:
         # quick: one request shape (args+kwargs, first call raises), second request settled (t >= 4)
         pre = base + ["x5 == %d" % NOP, "a5 == 0", "sh == 4", "bad == 0", "n1 == 3", "n2 == 1", "size >= 1", "t >= 4"]
-        parts = parts_product(simple=(0, 1), x3=range(NOP), x4=(0, 1, 3, NOP))
+        parts = parts_product(simple=(0, 1), x3=range(NOP), x4=(0, 1, 3, 5, NOP))
     else:
         pre = base + ["x5 == %d" % NOP, "a5 == 0", "sh == 4", "-1 <= bad <= 1", "2 <= n1 <= 3", "n2 == 1"]
         parts = parts_product(simple=(0, 1), n1=(2, 3), bad=(-1, 0, 1), x3=range(NOP))
